@@ -67,6 +67,7 @@ EXTRA = {
 BLANKS = ["", "", " ", "  ", "\t", " \t", " ", "  "]
 # decomposed sequences (e + combining acute, a + combining ring, Hangul jamo): names must come back as written
 NAME_ALPHA = rc.NAME_ALPHA + [":", "*", "é", "k", "e\u0301", "a\u030a", "\u1100\u1161"]
+LINEISH_ALPHA = ["a", "b", "x", "1", " ", "-", "é", "\x0b", "\x0c", "\x1c", "\x1d", "\x1e", "\x85", "\u2028", "\u2029"]
 COMMENTS = ["comment", "more", "**x", "", " ", "k:", "1.5", ":::t", "-"]
 
 
@@ -126,6 +127,10 @@ def gen_tv(rng, native, illformed=None, zero_cols=False):
     def cell(k, first):
         for _ in range(50):
             c = rng.choice(c02.WF_NATIVE[k]) if native and rng.random() < 0.5 else rng.choice(c02.WF_SPELL[k])
+            if k == "text" and rng.random() < 0.3:
+                # free text incl. the characters str.splitlines() breaks at but file / stream iteration does not
+                # (VT, FF, FS, GS, RS, NEL, LINE / PARAGRAPH SEPARATOR): they are ordinary cell content
+                c = rc.rand_text(rng, LINEISH_ALPHA, 1, 5)
             if isinstance(c, str) and "\n" in c:
                 continue
             if first and (is_blank(c) or row_kind([c]) != "plain"):
